@@ -149,6 +149,10 @@ def main():
     # ---- C15: fragment fields without a size hint
     m = re.search(r"let has_fragment_fields = match seq\.size_hint\(\) \{(.*?)\};", primary, flags=re.S)
     txt("primary_frag_rule", re.sub(r"\s+", "", m.group(1)) if m else None)
+    # ---- C09: shape of CreationTimestamp::now
+    nb = fn_body(dtntime, "now") or ""
+    nb1 = re.sub(r"\s+", "", re.sub(r"#\[cfg\(bp7_verif\)\]\s*crate::verif_hooks::sched_point\(\d+\);", "", nb))
+    txt("tsgen_now_body", nb1 if nb else None)
     # ---- emit
     lines = ["/- GENERATED by tools/extract.py from /repo/src — do not edit. -/", "namespace Bp7.Extracted", ""]
     for name, kind, v in facts:
